@@ -63,6 +63,11 @@ CHECKS["C03"] = ("exploration",
  "For every builtin name/arity reported by `builtins` (arity <= 2) and the @format natives, all (input, arg1, arg2) tuples over the builtin universe (every type, empty/singleton/nested containers, boundary and huge numbers in every Go representation, NaN/inf, multi-byte and invalid UTF-8 strings, path- and entry-shaped values) are executed; each tuple is checked (O1) for totality and catchability (the error is an error value that try catches; the uncaught run fails iff the caught one does), (O2) against a reference native written from the manual where one exists (45 natives, + - * / % on all type pairs, 25 math functions against Go's math), and (O4) for representation independence: every uniform re-lifting of the tuple's numbers (int / *big.Int / integer json.Number; float64 / fractional json.Number below 2^53; all saturating forms beyond the double range) must give the same result. (O3) every jq-defined builtin x 17 filter arguments x 20 inputs is compared with its published definition in builtin.jq interpreted by the reference interpreter, and the precompiled table in builtin.go is compared with Parse(builtin.jq) definition by definition.",
  "Reference natives decline (undefined) wherever the manual is silent or gojq pins a deliberate deviation in cli/test.yaml; natives without a reference (bessel/gamma family, dates) get O1/O4 only.",
  "DESIGN.md §4 C03")
+CHECKS["C12"] = ("exploration",
+ "bounded-exhaustive enumeration of strings over a byte alphabet, number classes and container shapes x every output mode, with read-back and cross-mode agreement",
+ "All strings of length <= 2 over a 48-piece byte alphabet (every control/quote/backslash/DEL class, every UTF-8 lead and continuation class, surrogate encodings, U+2028/9, U+FFFD, boundary code points) and of length 3 over 24 of them, each as value, object key and nested; ~50 numbers covering float64 bit-pattern classes and format thresholds, NaN/inf, non-canonical json.Number literals and big integers; containers of depth 0..40 (thorough 0..70, 129, 200), width to 1000 (9000) and sizes on either side of the encoder's 8 KiB flush. Every value is rendered by Marshal, tojson, tostring, @json, @text and by the command's own encoder (hook VerifEncode) in every option combination (compact, indent 0..9, tab; plain and coloured); each output must be valid UTF-8, well-formed JSON holding one value, read back equal (modulo NaN->null, infinity saturation, U+FFFD per invalid byte), agree with Marshal modulo insignificant white space and SGR sequences, and be indented by exactly depth x unit on every line; tojson|fromjson is the identity. Encoder and Marshal reuse histories, the real command line with --arg, and a --yaml-output/--yaml-input round trip for every valid string.",
+ "Trusted: encoding/json as the reader. A double's text is compared as a double.",
+ "DESIGN.md §4 C12")
 NOT_YET = "check not built yet (work in progress in this session); see DESIGN.md for the planned exploration"
 
 def commits():
